@@ -8,6 +8,14 @@
   do_manifest_json with a `ManifestJsonFormat`, `parseJson` = parse_json.rs,
   `visibleSorted` = get_visible_fields_order of a single-layer object,
   `isSafeYamlPlain` / `isSafeTomlPlain`.  Numbers are their text tokens.
+
+  Second part (end of file): the YAML document emitter (`RsjModel/Yaml.lean`) and
+  the TOML writer (`RsjModel/Toml.lean`).  The READERS the round trips go through
+  (`readYaml`: RsjProofs/YamlRead.lean; `readToml`, `readBasicString`, `readKey`:
+  RsjProofs/TomlRead.lean, TomlSem.lean, Toml.lean) are specifications of the
+  sub-languages the writers use, written from the YAML 1.2.2 / TOML 1.0.0 texts;
+  they are not models of Rust code.  Lemmas: RsjProofs/Toml*.lean, Yaml*.lean,
+  NumChars.lean.
 -/
 import RsjProofs.JsonParse
 import RsjProofs.JsonNumber
@@ -15,6 +23,9 @@ import RsjProofs.JsonFields
 import RsjProofs.JsonKeys
 import RsjProofs.JsonEscapeTable
 import RsjProofs.JsonFuel
+import RsjProofs.TomlRoundtrip
+import RsjProofs.YamlStream
+import RsjProofs.YamlModelEq
 namespace Rsj.Json
 
 /-- **C05 escape_is_rfc8259.**  The text `escape_string_json` writes between the
@@ -250,3 +261,327 @@ open Rsj.Json in
 #print axioms C05_yaml_plain_not_resolvable_full_fails
 open Rsj.Json in
 #print axioms C05_yaml_plain_not_resolvable_partial
+
+
+/-! # The YAML and TOML writers -/
+
+namespace Rsj.Toml
+open Rsj.Json
+
+/-- **C05 toml_string_roundtrip.**  A TOML v1.0.0 basic-string reader
+    (`readBasicString`, ABNF `basic-string` with the escapes `\b \t \n \f \r \" \\
+    \uXXXX \UXXXXXXXX` and `basic-unescaped` characters only) reads the text of
+    `escape_string_toml` back to exactly the original code points and stops right
+    after the closing quote — for every string and every continuation. -/
+theorem C05_toml_string_roundtrip (s rest : Str) :
+    readBasicString (escape s ++ rest) = some (s, rest) :=
+  readBasicString_escape s rest
+
+/-- **C05 toml_string_no_control.**  `escape_string_toml` never writes a control
+    character raw: every character of its output is ≥ U+0020 and outside
+    U+007F..U+009F (TOML forbids U+0000..U+0008, U+000A..U+001F, U+007F in basic
+    strings). -/
+theorem C05_toml_string_no_control (s : Str) :
+    ∀ c ∈ escape s, 0x20 ≤ c ∧ ¬ (0x7F ≤ c ∧ c ≤ 0x9F) :=
+  escape_notControl s
+
+/-- **C05 toml_key_forms.**  Every key `escape_key_toml` emits is either the field
+    name itself and a TOML bare key (non-empty, `A-Za-z0-9_-` only), or the quoted
+    basic string of the field name. -/
+theorem C05_toml_key_forms (k : Str) :
+    (escapeKeyToml k = k ∧ k ≠ [] ∧ ∀ c ∈ k, isBare c = true) ∨
+    (escapeKeyToml k = escape k ∧ isSafeTomlPlain k = false) :=
+  escapeKeyToml_forms k
+
+/-- **C05 toml_key_roundtrip.**  A TOML `simple-key` reader (bare or basic-quoted)
+    reads an emitted key back to the field name, whenever the key is followed by
+    something that is not a bare-key character (the writer follows keys by a space,
+    `.` or `]`). -/
+theorem C05_toml_key_roundtrip (k rest : Str) (hr : ∀ c r', rest = c :: r' → isBare c = false) :
+    readKey (escapeKeyToml k ++ rest) = some (k, rest) :=
+  readKey_escapeKeyToml k rest hr
+
+/-- **C05 toml_outcome.**  `std.manifestTomlEx(value, indent)` fails with the
+    type error exactly for non-objects, with "cannot manifest null in TOML" exactly
+    for objects containing `null` anywhere (hidden fields never reach the writer),
+    and never reaches the `unreachable!()` arms of `do_manifest_toml_table`. -/
+theorem C05_toml_outcome (ind : Str) (v : JVal) :
+    (manifestTomlEx ind v = .error .notObject ↔ ∀ fs, v ≠ .obj fs) ∧
+    (manifestTomlEx ind v = .error .nullValue ↔ ∃ fs, v = .obj fs ∧ hasNullF fs = true) ∧
+    ((∃ t, manifestTomlEx ind v = .ok t) ↔ ∃ fs, v = .obj fs ∧ hasNullF fs = false) ∧
+    manifestTomlEx ind v ≠ .error .unreachable := by
+  refine ⟨?_, ?_, ?_, manifestTomlEx_ne_unreachable ind v⟩
+  all_goals
+    cases v with
+    | obj fs =>
+      rw [manifestTomlEx_obj]; unfold outcome
+      cases h : hasNullF fs <;> simp [h]
+    | _ => simp [manifestTomlEx]
+
+/-- **C05 toml_roundtrip.**  For an indent string of TOML whitespace (spaces /
+    tabs; `std.manifestToml` uses two spaces) and every null-free object whose
+    numbers are number tokens and whose objects have pairwise distinct keys
+    (`ValOK`, the side conditions of `C05_manifest_parse_roundtrip`): the writer
+    succeeds, and the TOML reader `readToml` — `key = value` lines, inline arrays
+    and tables, `[table]` and `[[array-of-tables]]` headers folded with TOML's
+    table semantics (open header tables, closed inline values, the last item of an
+    array of tables) — returns the object with the fields of every table listed in
+    document order (`normT`: plain fields first, then sub-tables), which equals the
+    original value up to the order of object fields (`JEquiv`; TOML tables are
+    unordered). -/
+theorem C05_toml_roundtrip (ind : Str) (hi : IndOK ind) (fs : List (Str × JVal))
+    (hv : ValOK (.obj fs)) (hn : hasNullF fs = false) :
+    ∃ text, manifestTomlEx ind (.obj fs) = .ok text ∧
+      readToml text = some (.obj (normT fs)) ∧ JEquiv (.obj fs) (.obj (normT fs)) := by
+  obtain ⟨text, h1, h2⟩ := readToml_manifest ind hi fs hv hn
+  exact ⟨text, h1, h2, normT_equiv fs⟩
+
+/-- `std.manifestToml(value) = std.manifestTomlEx(value, "  ")` -/
+theorem C05_toml_roundtrip_manifestToml (fs : List (Str × JVal))
+    (hv : ValOK (.obj fs)) (hn : hasNullF fs = false) :
+    ∃ text, manifestToml (.obj fs) = .ok text ∧
+      readToml text = some (.obj (normT fs)) ∧ JEquiv (.obj fs) (.obj (normT fs)) :=
+  C05_toml_roundtrip [32, 32] (by intro c hc; simp at hc; subst hc; rfl) fs hv hn
+
+/-! ### Non-vacuity -/
+
+/-- a table with a plain field after a sub-table, an array of tables with an empty
+    item, an array mixing a table and a number, a quoted key, an empty table … -/
+def exampleToml : List (Str × JVal) :=
+  [([97], .obj [([98], .obj [([99], .num [49])]), ([122], .str [115, 10])]),
+   ([98, 32], .num [45, 48]),
+   ([99], .arr [.obj [([120], .bool true)], .obj []]),
+   ([100], .arr [.obj [], .num [49, 46, 53]]),
+   ([101], .obj [])]
+
+example : ValOK (.obj exampleToml) := by
+  have h0 := C05_number_tokens jn_minus_zero (by decide)
+  have h1 := C05_number_tokens jn_one_point_five (by decide)
+  have h2 : NumTok [49] :=
+    C05_number_tokens ⟨[], [49], [], [], rfl, Or.inl rfl,
+      Or.inr ⟨49, [], rfl, by decide, by intro c h; cases h⟩, Or.inl rfl, Or.inl rfl⟩ (by decide)
+  simp only [exampleToml, ValOK, ItemsOK, FieldsOK, and_true, true_and]
+  refine ⟨⟨⟨⟨h2, ?_⟩, ?_⟩, h0, ?_, ⟨?_, h1⟩, ?_⟩, ?_⟩ <;> decide
+
+example : hasNullF exampleToml = false := by decide
+
+/-- … the text the model writes for it with a two-space indent:
+```
+"b " = -0
+d = [
+  {  },
+  1.5
+]
+
+[a]
+  z = "s\n"
+
+  [a.b]
+    c = 1
+
+[[c]]
+  x = true
+
+[[c]]
+
+[e]
+``` -/
+example : manifestToml (.obj exampleToml) = .ok
+    [34, 98, 32, 34, 32, 61, 32, 45, 48, 10, 100, 32, 61, 32, 91, 10, 32, 32, 123, 32, 32, 125, 44, 10, 32,
+     32, 49, 46, 53, 10, 93, 10, 10, 91, 97, 93, 10, 32, 32, 122, 32, 61, 32, 34, 115, 92, 110, 34, 10, 10,
+     32, 32, 91, 97, 46, 98, 93, 10, 32, 32, 32, 32, 99, 32, 61, 32, 49, 10, 10, 91, 91, 99, 93, 93, 10, 32,
+     32, 120, 32, 61, 32, 116, 114, 117, 101, 10, 10, 91, 91, 99, 93, 93, 10, 10, 91, 101, 93] := rfl
+
+/-- … and the reader's answer on that text, by computation: the fields of every
+    table in document order … -/
+example : (manifestToml (.obj exampleToml)).toOption.bind readToml =
+    some (.obj
+      [([98, 32], .num [45, 48]), ([100], .arr [.obj [], .num [49, 46, 53]]),
+       ([97], .obj [([122], .str [115, 10]), ([98], .obj [([99], .num [49])])]),
+       ([99], .arr [.obj [([120], .bool true)], .obj []]), ([101], .obj [])]) := rfl
+
+/-- … which is `normT` of the value. -/
+example : normT exampleToml =
+    [([98, 32], .num [45, 48]), ([100], .arr [.obj [], .num [49, 46, 53]]),
+     ([97], .obj [([122], .str [115, 10]), ([98], .obj [([99], .num [49])])]),
+     ([99], .arr [.obj [([120], .bool true)], .obj []]), ([101], .obj [])] := by
+  simp [normT, plainN, subsN, arrN, isSubTable, isObj, exampleToml]
+
+example : manifestTomlEx [] (.obj [([97], .arr [.null])]) = .error .nullValue := rfl
+example : manifestTomlEx [] (.arr []) = .error .notObject := rfl
+
+end Rsj.Toml
+
+namespace Rsj.Yaml
+open Rsj.Json
+
+/-- Full statement of the YAML round trip: every value whose numbers are number
+    tokens, whose objects have distinct keys, and whose bare keys the core schema
+    reads as strings (`KeysOK`; trivially true for `quote_keys = true`). -/
+def C05_yaml_roundtrip_full : Prop :=
+  ∀ (iaio qk : Bool) (v : JVal), ValOK v → KeysOK qk v → readYaml (manifestYamlDoc iaio qk v) = some v
+
+/-- The full statement is FALSE for the code as it is: a string ending in a line
+    feed is written as a `|` block scalar with nothing after its last line, and
+    YAML's default (clip) chomping keeps the final line break only if there is one
+    in the text: `std.manifestYamlDoc("a\n")` is `|` / `  a`, which denotes `"a"`.
+    (Upstream's documented behaviour; the property's quantifier excludes strings
+    ending in a newline.  Other shapes that are not read back even when the text
+    goes on: a last line that is empty, `"a\n\n"`; a first line starting with a
+    space, `" a\n"`, because the indentation is detected from it; non-printable
+    characters, which a block scalar cannot escape.) -/
+theorem C05_yaml_roundtrip_full_fails : ¬ C05_yaml_roundtrip_full := by
+  intro h
+  have h1 : readYaml (manifestYamlDoc false true (.str [97, 10])) = some (.str [97, 10]) :=
+    h false true (.str [97, 10]) trivial trivial
+  have h2 : readYaml (manifestYamlDoc false true (.str [97, 10])) = some (.str [97]) := rfl
+  rw [h2] at h1
+  injection h1 with h1; injection h1 with h1
+  exact absurd h1 (by decide)
+
+/-- **C05 yaml_roundtrip (partial: no block scalars).**  For every value in the
+    property's quantifier — numbers are number tokens, objects have pairwise
+    distinct keys (`ValOK`), no string value ends in a line feed (`NoBlock`) — and
+    both settings of `indent_array_in_object` and `quote_keys` (with
+    `quote_keys = false`: every key written bare is one the YAML 1.2 core schema
+    resolves to a string, `KeysOK`; see `C05_yaml_plain_not_resolvable_full_fails`
+    for the keys this excludes): the YAML reader `readYaml` — block sequences and
+    mappings with detected indentation, compact `- key: …` entries, sequences at
+    the indentation of their key, `[]`, `{}`, double-quoted scalars, plain
+    `null/true/false`/numbers, plain and quoted keys, duplicate keys rejected —
+    returns exactly the value: same nesting, field order, code points, number
+    tokens.  Missing for the full statement: block scalars, see
+    `C05_yaml_roundtrip_full_fails`. -/
+theorem C05_yaml_roundtrip_partial (iaio qk : Bool) (v : JVal)
+    (hv : ValOK v) (hb : NoBlock v) (hk : KeysOK qk v) :
+    readYaml (manifestYamlDoc iaio qk v) = some v :=
+  readYaml_manifest iaio qk v hv hb hk
+
+/-- the defaults of `std.manifestYamlDoc(value)`: `indent_array_in_object = false`,
+    `quote_keys = true` (every key quoted: no condition on keys) -/
+theorem C05_yaml_roundtrip_default (v : JVal) (hv : ValOK v) (hb : NoBlock v) :
+    readYaml (manifestYamlDoc false true v) = some v :=
+  readYaml_manifest false true v hv hb (keysOK_true v)
+
+/-- **C05 yaml_roundtrip_block.**  Beyond the property's quantifier: strings
+    ending in a line feed (`|` block scalars) are read back too, PROVIDED the text
+    goes on with a line break after the document (as in `std.manifestYamlStream`,
+    or a file written by the CLI, which appends one) and every such string has a
+    shape a block scalar can carry (`BlockOK` / `BlockShapeOK`: only printable
+    `nb-char`s, a last line that is not empty, a first non-empty line that does not
+    start with a space and is preceded by empty lines only).  Every value without
+    such strings satisfies `BlockOK` (`NoBlock.blockOK`). -/
+theorem C05_yaml_roundtrip_block (iaio qk : Bool) (v : JVal)
+    (hv : ValOK v) (hb : BlockOK v) (hk : KeysOK qk v) :
+    readYaml (manifestYamlDoc iaio qk v ++ [10]) = some v :=
+  readYaml_manifest_nl iaio qk v hv hb hk
+
+/-- **C05 yaml_stream_roundtrip.**  `std.manifestYamlStream(docs, iaio, c_document_end,
+    quote_keys)` for a non-empty array of documents: the stream reader
+    (`readYamlStream`: `---` marker lines, optional `...`, every document read by
+    `readYaml` with the line break that follows it) returns exactly the documents.
+    (For `[]` the writer emits one empty document, as upstream does.) -/
+theorem C05_yaml_stream_roundtrip (iaio cde qk : Bool) (docs : List JVal) (hne : docs ≠ [])
+    (hv : ∀ d ∈ docs, ValOK d) (hb : ∀ d ∈ docs, BlockOK d) (hk : ∀ d ∈ docs, KeysOK qk d) :
+    readYamlStream (manifestYamlStream iaio cde qk docs) = some docs :=
+  readYamlStream_manifest iaio cde qk docs hne hv hb hk
+
+/-- The YAML model of `RsjModel/Yaml.lean` and the older one inside
+    `RsjModel/Json.lean` (the one the `json manifest Y:…` comparison of the check
+    uses) are the same functions. -/
+theorem C05_yaml_models_agree (iaio qk cde : Bool) (v : JVal) (docs : List JVal) :
+    Rsj.Yaml.manifestYamlDoc iaio qk v = Rsj.Json.manifestYamlDoc iaio qk v ∧
+    Rsj.Yaml.manifestYamlStream iaio cde qk docs = Rsj.Json.manifestYamlStream iaio cde qk docs :=
+  ⟨manifestYamlDoc_eq_json iaio qk v, manifestYamlStream_eq_json iaio cde qk docs⟩
+
+/-! ### Non-vacuity -/
+
+/-- an object with a bare and a quoted key, an array in an object, an object in an
+    array (compact form), a nested array, empty collections, a string with a line
+    feed inside (quoted), numbers … -/
+def exampleYaml : JVal :=
+  .obj [([97], .arr [.num [49], .obj [([98], .str [120, 10, 121]), ([99, 32], .arr [.arr [.null]])], .arr [],
+          .obj []]),
+        ([45, 97], .bool false)]
+
+example : ValOK exampleYaml ∧ NoBlock exampleYaml ∧ KeysOK false exampleYaml := by
+  have h2 : NumTok [49] :=
+    C05_number_tokens ⟨[], [49], [], [], rfl, Or.inl rfl,
+      Or.inr ⟨49, [], rfl, by decide, by intro c h; cases h⟩, Or.inl rfl, Or.inl rfl⟩ (by decide)
+  refine ⟨?_, ?_, ?_⟩
+  · simp only [exampleYaml, ValOK, ItemsOK, FieldsOK, and_true, true_and]
+    exact ⟨⟨h2, by decide⟩, by decide⟩
+  · simp only [exampleYaml, NoBlock, NoBlockL, NoBlockF, and_true, true_and]
+    decide
+  · simp only [exampleYaml, KeysOK, KeysOKL, KeysOKF, KeyOK, and_true, true_and]
+    decide
+
+/-- the text with `quote_keys = false`:
+```
+a:
+- 1
+- b: "x\ny"
+  "c ":
+  -
+    - null
+- []
+- {}
+-a: false
+``` -/
+example : manifestYamlDoc false false exampleYaml =
+    [97, 58, 10, 45, 32, 49, 10, 45, 32, 98, 58, 32, 34, 120, 92, 110, 121, 34, 10, 32, 32, 34, 99, 32, 34,
+     58, 10, 32, 32, 45, 10, 32, 32, 32, 32, 45, 32, 110, 117, 108, 108, 10, 45, 32, 91, 93, 10, 45, 32, 123,
+     125, 10, 45, 97, 58, 32, 102, 97, 108, 115, 101] := rfl
+
+example : readYaml (manifestYamlDoc false false exampleYaml) = some exampleYaml := rfl
+example : readYaml (manifestYamlDoc true true exampleYaml) = some exampleYaml := rfl
+
+/-- a value with block scalars of every permitted shape (leading empty line, more
+    indented and space-only lines) at item, field and end position … -/
+def exampleBlock : JVal :=
+  .arr [.str [10, 97, 10, 32, 32, 98, 10], .obj [([107], .str [120, 10, 10, 121, 10, 32, 10])], .str [122, 10]]
+
+example : ValOK exampleBlock ∧ BlockOK exampleBlock := by
+  refine ⟨by simp [exampleBlock, ValOK, ItemsOK, FieldsOK, keysOf], ?_⟩
+  simp only [exampleBlock, BlockOK, BlockOKL, BlockOKF, and_true]
+  refine ⟨?_, ?_, ?_⟩ <;> intro body hb <;> injection (show some _ = some body from hb) with hb <;> subst hb
+  · exact ⟨by decide, by decide, 1, 97, [], [[32, 32, 98]], rfl, by decide⟩
+  · exact ⟨by decide, by decide, 0, 120, [], [[], [121], [32]], rfl, by decide⟩
+  · exact ⟨by decide, by decide, 0, 122, [], [], rfl, by decide⟩
+
+example : readYaml (manifestYamlDoc false true exampleBlock ++ [10]) = some exampleBlock := rfl
+example : readYamlStream (manifestYamlStream false true true [exampleBlock, .str [97, 10], .null])
+    = some [exampleBlock, .str [97, 10], .null] := rfl
+example : readYamlStream (manifestYamlStream true false false [exampleYaml, exampleBlock])
+    = some [exampleYaml, exampleBlock] := rfl
+
+/-- block scalars in the middle of a document are read back … -/
+example : readYaml (manifestYamlDoc false true (.arr [.str [97, 10, 32, 98, 10], .num [49]]))
+    = some (.arr [.str [97, 10, 32, 98, 10], .num [49]]) := rfl
+/-- … at the end only if the text goes on with a line break (as in a stream) -/
+example : readYaml (manifestYamlDoc false true (.arr [.str [97, 10]]) ++ [10]) = some (.arr [.str [97, 10]]) := rfl
+example : readYaml (manifestYamlDoc false true (.arr [.str [97, 10]])) = some (.arr [.str [97]]) := rfl
+/-- shapes outside `BlockShapeOK` are not read back even then: `"a\n\n"` loses a
+    line feed (trailing empty lines are chomped), `" a\n"` its leading space (the
+    indentation is detected from the first line), `"\n"` becomes `""` -/
+example : readYaml (manifestYamlDoc false true (.str [97, 10, 10]) ++ [10]) = some (.str [97, 10]) := rfl
+example : readYaml (manifestYamlDoc false true (.str [32, 97, 10]) ++ [10]) = some (.str [97, 10]) := rfl
+example : readYaml (manifestYamlDoc false true (.str [10]) ++ [10]) = some (.str []) := rfl
+/-- a control character cannot be written in a block scalar at all (not an `nb-char`) -/
+example : readYaml (manifestYamlDoc false true (.str [1, 10]) ++ [10]) = none := rfl
+
+end Rsj.Yaml
+
+#print axioms Rsj.Toml.C05_toml_string_roundtrip
+#print axioms Rsj.Toml.C05_toml_string_no_control
+#print axioms Rsj.Toml.C05_toml_key_forms
+#print axioms Rsj.Toml.C05_toml_key_roundtrip
+#print axioms Rsj.Toml.C05_toml_outcome
+#print axioms Rsj.Toml.C05_toml_roundtrip
+#print axioms Rsj.Toml.C05_toml_roundtrip_manifestToml
+#print axioms Rsj.Yaml.C05_yaml_roundtrip_full_fails
+#print axioms Rsj.Yaml.C05_yaml_roundtrip_partial
+#print axioms Rsj.Yaml.C05_yaml_roundtrip_default
+#print axioms Rsj.Yaml.C05_yaml_roundtrip_block
+#print axioms Rsj.Yaml.C05_yaml_stream_roundtrip
+#print axioms Rsj.Yaml.C05_yaml_models_agree
